@@ -103,7 +103,7 @@ theorem func_sem (node : Node) (stop : Bool) (r : FuncRes) (hok : FuncOk node = 
           Choices.isValid ch f = true) ∧
         ∀ U : List String, U.Nodup → (∀ v ∈ vs, v ∈ U) →
           ∀ c : Choice, Valid 0 cmd.arity c → ∀ c', Relab 0 cmd.swaps c c' → Agrees U 0 cmd rel c c') := by
-  obtain ⟨d, l, cs, vs, rfl, hdl, hvs, hn, hc, hg, hcov, hdf, hbody⟩ := FuncOk.unpack hok
+  obtain ⟨d, l, cs, vs, rfl, hdl, hvs, hn, hg, hcov, hdf, hbody⟩ := FuncOk.unpack hok
   have hcmd : cmd = .seq cs := by rw [hdf] at hd; exact (Option.some.inj hd).symm
   subst hcmd
   obtain ⟨vars, dI, index, rels, sk, hv, hcm, hvar, hidx, hT, hF⟩ := func_inv2 _ stop r h
@@ -111,7 +111,7 @@ theorem func_sem (node : Node) (stop : Bool) (r : FuncRes) (hok : FuncOk node = 
   subst hvv
   rw [hbody] at hcm
   obtain ⟨hnd, hne, _⟩ := variables_wf _ vars hvs
-  obtain ⟨r0, hr0, w0, hsub0, _, hfin, hexit⟩ := cmds_core stop vars hnd hne l cs hdl hn hc hg dI index rels sk hcm
+  obtain ⟨r0, hr0, w0, hsub0, _, hfin, hexit⟩ := cmds_core stop vars hnd hne l cs hdl hn hg dI index rels sk hcm
   have hfirst : rels.headD (Relation.new []) = r0 := by rw [hr0]; rfl
   rw [hfirst] at hvar hF
   have hcov' : ∀ v ∈ (Cmd.seq cs).vars, v ∈ vars := by rw [Cmd.vars]; exact hcov
@@ -188,10 +188,10 @@ theorem Agrees.matrix {U : List String} {idx : Nat} {cmd : Cmd} {r : Relation} {
 /-! ## `FuncOk` from checks on the syntax tree -/
 
 /-- `FuncOk` holds for a function whose body is a block of supported statements satisfying
-    `namesOkA`, `castOkA`, whose accepted `for` guards are plain names (`guardsPlain`), and whose
+    `namesOkA`, whose accepted `for` guards are plain names (`guardsPlain`), and whose
     reading mentions neither a reserved name (`true` / `false`) nor an empty name as a variable. -/
 theorem funcOk_of_plain (d : Node) (l : List Node) (cs : List Cmd) (hdl : desugarL l = some cs)
-    (hn : namesOkAL l = true) (hc : castOkAL l = true) (hp : guardsPlainL l = true)
+    (hn : namesOkAL l = true) (hp : guardsPlainL l = true)
     (hres : ∀ v ∈ varsL cs, v ≠ "" ∧ v ∉ Gen.reserved) :
     FuncOk (.funcDef d (.compound (some l))) = true := by
   have hg : guardsFreshL cs = true :=
@@ -199,7 +199,7 @@ theorem funcOk_of_plain (d : Node) (l : List Node) (cs : List Cmd) (hdl : desuga
   have hrec := desugarL_vars l (fun n _ cmd hd => desugar_vars (sizeOf n + 1) n (Nat.lt_succ_self _) cmd hd)
     cs hdl
   unfold FuncOk
-  simp only [hn, hc, hdl, Bool.and_self, Bool.true_and]
+  simp only [hn, hdl, Bool.true_and]
   unfold Syntax.variables
   rw [varsN_eq]
   simp only [bind, Except.bind, pure, Except.pure, hg, Bool.true_and, List.all_eq_true,
